@@ -15,11 +15,13 @@ open HapVerif.Drv
 
 def portBase : Int := 14415
 
-/-- which `buildBackendOAuth` the tree under test has: read from the regenerated facts
-(the receiver of the precedence test and what the branch assigns) -/
-def currentFixed : Bool :=
-  Facts.c18OAuthPrecedenceReads == "config" &&
-  !Facts.c18OAuthPrecedenceAssigns.contains "path.AuthExternal.AlwaysDeny = false"
+/-- which code the tree under test has, read from the regenerated facts: the receiver of the
+precedence test of `buildBackendOAuth` and what that branch assigns; whether the clean-up of
+`setAuthExternal` reads the names of `HostPath.AuthExt` -/
+def currentVariant : Variant :=
+  { oauthOwn := Facts.c18OAuthPrecedenceReads == "config" &&
+      !Facts.c18OAuthPrecedenceAssigns.contains "path.AuthExternal.AlwaysDeny = false"
+    usedFront := Facts.c18SetAuthUsedFrontReads.contains "hpath.AuthExt.AuthBackendName" }
 
 /-! ### grammar -> abstract values -/
 
@@ -292,7 +294,7 @@ def handle (args : List String) (impl : String) : Verdict :=
     | some w =>
       -- Go map iteration: any order of the hosts and of the backends is a legal run
       let outs := (perms (hostsOf w)).flatMap fun ho => (perms (backendsOf w)).map fun bo =>
-        showState w (run currentFixed w ho bo)
+        showState w (run currentVariant w ho bo)
       let m := outs.headD ""
       if impl = "PANIC" then { model := m, agree := false, oracle := some "panic-in-updater" } else
       match impl.splitOn "||" with
